@@ -293,7 +293,8 @@ def run_config(batch, rec):
     rec.assume_note("file system answers are solver booleans constrained only by consistency (not file and directory at once; "
                     "non-empty implies directory; parent-is-a-file implies target absent)")
     if batch["items"][0]["kind"] == "project":
-        # nothing symbolic: decided by the float scenario of `replay` (FLOAT_SELFCHECK); the nested-name scenario is a known finding
+        # nothing symbolic: decided by the float scenario of `replay` (FLOAT_SELFCHECK).  The nested/dotted-name scenario was a known
+        # finding (runs:nested-result-name-renumbering) until the fix commit; the fingerprint is kept so a regression is still reported.
         if batch["items"][0]["what"] == "nested":
             rec.fp_override = "runs:nested-result-name-renumbering"
         rec.assume_note("project scenarios: concrete histories on real Project objects (sampling)")
@@ -520,10 +521,11 @@ def _run_runs(cfg, rec):
                          z3.StrToInt(sfx_) == z3.StrToInt(best) + 1)
         spec = z3.If(any_exact, next_ok, Rname == z3.Concat(base, z3.StringVal("_run_0000")))
         goals.append(("saving never raises for a well-formed results folder", z3.Not(raises), "runs:create:exception", []))
-        goals.append(("the new run folder does not exist yet", z3.Or(raises, z3.And([z3.Implies(env.present[i], env.names[i] != Rname) for i in range(n)])),
-                      "runs:create:not-fresh", []))
         goals.append(("new run number = highest run of exactly this result name + 1 (0000 if none)", z3.Or(raises, spec),
                       "runs:create:wrong-number", []))
+        # decided after the numbering goal: once that is proved (unsat) it is a consequence of the hypotheses and may be used as a lemma
+        goals.append(("the new run folder does not exist yet", z3.Or(raises, z3.And([z3.Implies(env.present[i], env.names[i] != Rname) for i in range(n)])),
+                      "runs:create:not-fresh", []))
     else:
         not_found = z3.Or([c for c, d in env.raises if "explicit raise" in d] or [z3.BoolVal(False)])
         spec = z3.If(any_exact, z3.And(z3.Not(not_found), Rname == z3.Concat(prefix, best)), not_found)
@@ -538,6 +540,7 @@ def _run_runs(cfg, rec):
         rec.stats.prove[status if status in ("sat", "unsat") else "unknown"] += 1
         if status == "unsat":
             rec.proved[name] = rec.proved.get(name, 0) + 1
+            hyp = hyp + [goal]  # proved from hyp: sound as a lemma for the remaining goals of this configuration
         elif status == "sat":
             vals = I.parse_model(out, ["base", "sfx"] + [f"d{i}" for i in range(n)] + [f"present{i}" for i in range(n)])
             rec.candidates.append((fp, name, {"env": vals, "what": what}))
@@ -688,9 +691,13 @@ def _replay_project_save():
     return False, "registry save refuses to overwrite an existing run"
 
 
+NESTED_NAMES = ("2024/fit", "fit.v2", "a.b/c.d", "x_run_0001/y", ".hidden")
+
+
 def _replay_project_nested(only="nested"):
-    """Result names with a path separator (a model in a sub folder of models/, or an explicit 'a/b'): each run gets a fresh number
-    (only='nested': reports a refused / mis-numbered run - the known finding); whatever the numbering does, an earlier run is never
+    """Result names with a path separator (a model in a sub folder of models/, or an explicit 'a/b') or a dot ('fit.v2': pathlib's
+    `stem` cuts such names): each run gets a fresh, increasing number and the latest-result lookups resolve to the newest run
+    (only='nested': reports a refused / mis-numbered run or a wrong lookup); whatever the numbering does, an earlier run is never
     modified (only='nested-intact': reports destruction only, under its own fingerprint)."""
     import tempfile
     import warnings as _w
@@ -698,30 +705,44 @@ def _replay_project_nested(only="nested"):
 
     from glotaran.project.project import Project
 
-    with tempfile.TemporaryDirectory() as d, _w.catch_warnings():
-        _w.simplefilter("ignore")
-        result = _tiny_result()
-        project = Project.open(Path(d) / "proj", create_if_not_exist=True)
-        reg = project._result_registry
-        for run in range(2):
-            before = _tree(reg.directory)
-            exc = None
-            try:
-                reg.save("2024/fit", result)
-            except Exception as ex:  # noqa: BLE001
-                exc = ex
-            after = _tree(reg.directory)
-            if only == "nested-intact":
-                changed = sorted(k for k, v in before.items() if after.get(k) != v)
-                if changed:
-                    return True, f"result name '2024/fit': storing run number {run} modified files of an earlier run: {changed[:4]}"
-                continue
-            if exc is not None:
-                return True, (f"result name '2024/fit': storing run number {run} raised {type(exc).__name__} instead of using a fresh run "
-                              f"folder 2024/fit_run_{run:04} (existing folders: {sorted(k for k in before if k.endswith(('_run_0000', '_run_0001')))})")
-            if not any(k == f"2024/fit_run_{run:04}" for k in after):
-                return True, f"result name '2024/fit': run number {run} not stored under 2024/fit_run_{run:04}: {sorted(after)[:6]}"
-    return False, "nested result names are numbered like flat ones"
+    for nm in NESTED_NAMES:
+        with tempfile.TemporaryDirectory() as d, _w.catch_warnings():
+            _w.simplefilter("ignore")
+            result = _tiny_result()
+            project = Project.open(Path(d) / "proj", create_if_not_exist=True)
+            reg = project._result_registry
+            for run in range(3):
+                before = _tree(reg.directory)
+                exc = None
+                try:
+                    reg.save(nm, result)
+                except Exception as ex:  # noqa: BLE001
+                    exc = ex
+                after = _tree(reg.directory)
+                if only == "nested-intact":
+                    changed = sorted(k for k, v in before.items() if after.get(k) != v)
+                    if changed:
+                        return True, f"result name {nm!r}: storing run number {run} modified files of an earlier run: {changed[:4]}"
+                    continue
+                if exc is not None:
+                    return True, (f"result name {nm!r}: storing run number {run} raised {type(exc).__name__} instead of using a fresh run "
+                                  f"folder {nm}_run_{run:04} (existing folders: "
+                                  f"{sorted(k for k in before if k.endswith(('_run_0000', '_run_0001', '_run_0002')))})")
+                if not any(k == f"{nm}_run_{run:04}" for k in after):
+                    return True, f"result name {nm!r}: run number {run} not stored under {nm}_run_{run:04}: {sorted(after)[:6]}"
+                want = reg.directory / f"{nm}_run_{run:04}"
+                for how, look in (("get_latest_result_path(name)", lambda: project.get_latest_result_path(nm)),
+                                  ("get_result_path(name, latest=True)", lambda: project.get_result_path(nm, latest=True)),
+                                  ("get_latest_result_path(first run)", lambda: project.get_latest_result_path(f"{nm}_run_0000")),
+                                  ("get_result_path(first run)", lambda: project.get_result_path(f"{nm}_run_0000"))):
+                    try:
+                        got = look()
+                    except Exception as ex:  # noqa: BLE001
+                        return True, f"result name {nm!r} after run {run}: {how} raised {type(ex).__name__}: {str(ex)[:80]}"
+                    exp = reg.directory / f"{nm}_run_0000" if how.startswith("get_result_path(first") else want
+                    if Path(got) != exp:
+                        return True, f"result name {nm!r} after run {run}: {how} resolved to {got} instead of {exp}"
+    return False, "nested and dotted result names are numbered and looked up like plain ones"
 
 
 def _replay_import_data():
